@@ -351,7 +351,7 @@ func c06GenSched(r *Rand, i int) string {
 func c06FaultGenCases(r *Rand, tier string) []string {
 	nRd, nTr, nSched := 400, 60, 3
 	if tier == "thorough" {
-		nRd, nTr, nSched = 8000, 1200, 24
+		nRd, nTr, nSched = 8000, 700, 24
 	}
 	var out []string
 	for i := 0; i < nRd; i++ {
